@@ -902,6 +902,25 @@ static void case_ch(char **t, int nt, sb *out, int in_thr) {
       gbuf *h = galloc(sizeof(blake3_hasher), 8, 0);
       memcpy(h->p, src->p, sizeof(blake3_hasher));
       PUSH_H(h);
+    } else if (!strcmp(op, "ri") && nf == 2) {
+      /* ri:<count>  re-run the case's initialiser <count> times on a scratch hasher, hash "abc", and compare every
+       * digest with the first one: an initialiser must be a function of its arguments only (C18: no shared cache) */
+      uint64_t cnt = parse_u64(f[1]);
+      uint8_t first[32], cur[32];
+      int diff = 0;
+      for (uint64_t it = 0; it < cnt; it++) {
+        blake3_hasher tmp;
+        switch (m.kind) {
+        case M_HASH: blake3_hasher_init(&tmp); break;
+        case M_KEYED: blake3_hasher_init_keyed(&tmp, m.arg.p); break;
+        case M_DERIVE:
+        case M_DERIVERAW: blake3_hasher_init_derive_key_raw(&tmp, m.arg.p, m.arg.n); break;
+        }
+        blake3_hasher_update(&tmp, "abc", 3);
+        blake3_hasher_finalize(&tmp, it ? cur : first, 32);
+        if (it && memcmp(cur, first, 32)) diff = 1;
+      }
+      sb_tok(out, diff ? "diff" : "same");
     } else if (!strcmp(op, "cmp") && nf == 3) {
       sb_tok(out, memcmp(H(f[1]), H(f[2]), sizeof(blake3_hasher)) ? "diff" : "same");
     } else {
